@@ -26,7 +26,7 @@ BANKVM = {"trusted": SDK_TRUST + ["contract behaviour at chain level is modelled
 SHIELD = {"engines": [chain("shield", 128, 1280, ops=160, tops=240)],
           "trusted": SDK_TRUST + ["the staking module is an observed input: the bonded stake the staking hooks recompute for a provider is read from the observed post-state; unbonding delegations (their delay by claims and payouts taken from them) are not modelled",
                                   "governance's tally of a claim is validated by the C12 monitors; the shield model takes the observed outcome of a claim (paid / rejected / vetoed) as input"],
-          "assumptions": ["shield and governance parameters are constant along a history", "withdraw period >= protection period >= claim lock (two voting periods), the module's stated design assumption (keeper/collateral.go); 21 days / 21 days / 4 days by default",
+          "assumptions": ["shield and governance parameters are constant along a history", "three histories in four are drawn inside the module's stated design assumption (keeper/collateral.go): unbonding time >= withdraw period >= protection period >= claim lock (21 / 21 / 21 / 4 days by default); one in four outside it, where a claim that passes the vote may fail at payout (the proposal then fails and its lock is undone)",
                           "only the bond denomination is used for shield, fees and losses", "genesis LastUpdateTime is the chain's start time (DefaultGenesisState stamps the wall clock)"]}
 
 PROPS = {
@@ -85,7 +85,8 @@ PROPS = {
         "trusted": VM_TRUST,
         "assumptions": VM_ASSUME,
     },
-    "C01": dict(BANKVM, lean=["Shentu.Props.C01"], engines=[chain("bankvm", 96, 960, ops=100), chain("gov", 48, 480, ops=100), chain("oracle", 48, 480)]),
+    "C01": dict(BANKVM, lean=["Shentu.Props.C01", "Shentu.Props.C01s"],
+                engines=[chain("bankvm", 96, 960, ops=100), chain("gov", 48, 480, ops=100), chain("oracle", 48, 480), chain("shield", 32, 320, ops=120), chain("staking", 32, 320, ops=100)]),
     "C18": dict(BANKVM, lean=["Shentu.Props.C18", "Shentu.Props.C18vm"], drivers=["chaindriver", "vmdriver"],
                 engines=[chain("bankvm", 160, 1600, ops=100), vm("calls", 16000, 320000), vm("create", 1600, 16000)]),
     "C19": dict(BANKVM, lean=["Shentu.Props.C19"], engines=[chain("bankvm", 160, 1600, ops=100)]),
